@@ -100,11 +100,12 @@ class Harness:
         self.exe = ctx.harness("zwharness", variant)
         self.budget = budget
         self.secs = secs
-        rc, out, err = common.run_lines(self.exe, ["D", "V"])
+        rc, out, err = common.run_lines(self.exe, ["D", "V", "K"])
         self.types = out[0]
         self.domorder = out[1]
         self.words = out[3]
-        self.cfg = ["cfg " + self.types, "cfg " + self.domorder, "cfg " + self.words]
+        self.consts = next((l for l in out if l.startswith("consts")), "consts")
+        self.cfg = ["cfg " + self.types, "cfg " + self.domorder, "cfg " + self.words, "cfg " + self.consts]
 
     def run_impl(self, lines, timeout=1800):
         """returns (records, crashed_index or None, stderr)"""
